@@ -827,6 +827,27 @@ pub fn cmd_check(args: &Args) -> i32 {
                 }
             }
         }
+        // thorough tier: a batch of "deep" runs (wider bounds: stores up to 1500 records, histories
+        // up to 600 ops, up to 5 threads / 6 stores, words up to 250 characters)
+        if tier == "thorough" && args.num("runs").is_none() {
+            let deep_n = (n / 200).max(200);
+            let db = run_batch(&exe_for("checked"), &prop, scenario, seed, gen::DEEP_BASE, 1, gen::DEEP_BASE + deep_n, jobs, deadline_s);
+            println!("  scenario {:9} deep   : {} runs, {} ops, {} oracle evaluations, {:.1} s, violations {}, aborts {}{}", scenario, db.agg.runs, db.agg.executed, db.agg.evals, db.wall, db.violations.len(), db.aborts.len(), if db.truncated { " (stopped at the wall-clock cap)" } else { "" });
+            per_scenario.push(json!({"scenario": scenario, "flavour": "checked", "deep": true, "runs": db.agg.runs, "ops": db.agg.executed, "evaluations": db.agg.evals, "wall_s": db.wall, "runs_per_hour": (db.agg.runs as f64 / db.wall.max(0.001) * 3600.0) as u64}));
+            truncated |= db.truncated;
+            for (run, v) in &db.violations {
+                if v.prop == prop {
+                    failures.push(Failure { flavour: "checked", scenario: scenario.to_string(), run: *run, target: Target::Key(v.key.clone()), key: v.key.clone(), detail: violation_json(v) });
+                }
+            }
+            for a in &db.aborts {
+                let pre = death_is_precondition(&a.stderr);
+                if prop == "C01" || (prop == "C19" && pre) {
+                    failures.push(Failure { flavour: "checked", scenario: scenario.to_string(), run: a.run, target: if a.hang { Target::Hang } else { Target::Death { std_precondition: pre } }, key: format!("{}.{}", prop, if a.hang { "hang" } else { "abort" }), detail: json!({"observed": format!("{} ; stderr: {}", a.what, a.stderr), "expected": "returns normally"}) });
+                }
+            }
+            total.merge_json(&db.agg.to_json());
+        }
         // the differential properties also run in the shipping build (no debug assertions that
         // could mask a wrong answer behind a panic), on further run indices
         if matches!(prop.as_str(), "C06" | "C07" | "C10" | "C12" | "C18" | "C20") {
